@@ -52,15 +52,17 @@ def gen(tier, rng):
                                                      C.topt(rng.choice(strs + [None])), "-" if sc is None else C.tlist(sc)), "built/token"))
         sc = rng.choice(SC)
         aud = rng.choice([None, [], ["a"], ["a", "b"], [rng.choice(strs)]])
-        out.append(("BUILT introspection %d %s %s %s %s %s" % (rng.randint(0, 1), "-" if sc is None else C.tlist(sc), C.topt(rng.choice(strs + [None])),
-                                                              rng.choice(["-", "bearer", "mac", "ext:" + C.tb("dpop")]),
-                                                              rng.choice(["-", "0", "-1", "1700000000", str(D.TS_MAX), str(D.TS_MIN)]),
-                                                              "-" if aud is None else C.tlist(aud)), "built/introspection"))
+        ts = lambda: rng.choice(["-", "0", "-1", "1700000000", str(D.TS_MAX), str(D.TS_MIN)])
+        so = lambda: C.topt(rng.choice(strs + [None, None]))
+        out.append(("BUILT introspection %d %s %s %s %s %s %s %s %s %s %s %s" % (
+            rng.randint(0, 1), "-" if sc is None else C.tlist(sc), so(), so(),
+            rng.choice(["-", "bearer", "mac", "ext:" + C.tb("dpop")]), ts(), ts(), ts(), so(),
+            "-" if aud is None else C.tlist(aud), so(), so()), "built/introspection"))
         code = rng.choice(D.CODES)
         out.append(("BUILT %s %s %s %s - - -" % (rng.choice(["err-basic", "err-device"]), C.tb(code), C.topt(rng.choice(strs + [None])), C.topt(rng.choice(strs + [None]))), "built/error"))
     # the recorded finding: an EMPTY scope list built by hand
     out.append(("BUILT token %s bearer - - . -" % C.tb("t"), "built/empty-scope-list"))
-    out.append(("BUILT introspection 1 . - - - -", "built/empty-scope-list"))
+    out.append(("BUILT introspection 1 . - - - - - - - - - -", "built/empty-scope-list"))
     return out
 
 
